@@ -914,6 +914,12 @@ def run_case(spec, driver, monitors=MONITORS, max_virtual=200000, run_cls=None):
     res["kinds"] = kinds
     res["n_exec"] = kinds.get("start", 0)
     res["foreign_sessions"] = list(getattr(r, "foreign_sessions", []))[:5]
+    # states removed during the run (state control `unset` requests): "<object>:<state>" -> workers that removed it
+    res["unset_by"] = {}
+    for e in r.events:
+        if len(e) >= 5 and e[1] == "door" and e[2] == "unset" and isinstance(e[4], dict):
+            for q in e[4].get("reqs", []):
+                res["unset_by"].setdefault(f"{q[0]}:{q[1]}", []).append(e[3])
     res["class_flags"] = {}
     for l in r.static_lines:
         if l.startswith("node "):
